@@ -344,7 +344,8 @@ def _diff(x, y, path, out):
                 return
         dy = dict(y[2])
         for k, p in x[2]:
-            _diff(p, dy[k], "%s[%r]" % (path, k), out)
+            kr = "<class %s:%s>" % (k.__module__, k.__qualname__) if isinstance(k, type) else repr(k)     # (as the executor prints classes)
+            _diff(p, dy[k], "%s[%s]" % (path, kr), out)
 
 
 def same(a, b):
